@@ -56,11 +56,11 @@ def cases(draw, prof):
     # characteristics in the databook
     in_db = []
     for x in characs:
-        if x["den"] is None and draw(st.booleans()):
+        if x["den"] is None and draw(st.integers(0, 2)) > 0:
             x["db"] = True
             in_db.append(x["name"])
     for x in characs:
-        if x["den"] is not None and x["den"] in in_db and draw(st.booleans()):
+        if x["den"] is not None and x["den"] in in_db and draw(st.integers(0, 3)) > 0:
             x["db"] = True
             in_db.append(x["name"])
     cmap = {x["name"]: x for x in characs}
@@ -90,6 +90,11 @@ def cases(draw, prof):
     label = klass
     if quantities:
         q = draw(st.sampled_from(quantities))
+        fracs = [xn for xn in in_db if cmap[xn]["den"] is not None]
+        if klass == "yfactor" and fracs and draw(st.booleans()):
+            # calibration factor on a fraction characteristic or on its denominator (they must be applied independently)
+            xf_ = draw(st.sampled_from(fracs))
+            q = draw(st.sampled_from([xf_, cmap[xf_]["den"]]))
         pop = draw(st.sampled_from(pops))
         e = data["q"][q][pop]
         cur = e["v"][0] if "v" in e else e["a"]
